@@ -168,6 +168,7 @@ structure NestCfg where
   exprDepth : Nat := 2
   propCombos : Bool := false     -- nested-statement combinations on property symbols (L7)
   nestedPairs : Bool := false    -- a component-pair combination inside a nested statement
+  groupNested : Bool := false    -- a nested component as last part of a pair group
   deriving Repr
 
 def distinctSyms (k : Nat) (pool : List Sym) : GS (List Sym) := do
@@ -223,6 +224,13 @@ partial def genGTree (cfg : NestCfg) (n : Nat) : GS GTree := do
       let d ← liftG (range 0 1)
       let e ← decorateLeaf (← genExpr { shared := false, chains := false } d)
       parts := .ann { sym := sym } true e :: parts
+    -- now and then a nested component closes the group
+    if cfg.groupNested && (← liftG (chance 1 3)) then
+      let nsym ← liftG (pick (Sym.nestables.filter (fun (x : Sym) => !x.isProperty)))
+      let k2 ← liftG (range 1 2)
+      let isyms ← distinctSyms k2 Sym.simples
+      let inner := isyms.map fun (y : Sym) => Part.ann { sym := y } true (.leaf (y.name ++ str " inner value"))
+      parts := Part.nested { sym := nsym } (.mk inner) :: parts
     pure (.grp (.mk parts.reverse))
   else
     let k ← liftG (range 1 (n - 1))
